@@ -148,7 +148,10 @@ def evaluate(case):
         for n in fut_aliases:
             if n != name:
                 mine += [c for c in cancels.get(n, []) if in_shutdown(c[0], c[1]) and c[0] > o["call_seq"] and c not in mine]
-        d = done_seq.get(name)
+        # (with a coalescing delegate several names stand for ONE future: it was done when the first of their recorded
+        # done-callbacks ran - the others run later, one after the other, possibly after shutdown() has returned)
+        ds = [done_seq[n] for n in fut_aliases if n in done_seq]
+        d = min(ds) if ds else None
         done_before_return = d is not None and d < sd["ret_seq"]
         done_before_call = d is not None and d < sd["call_seq"]
         if len(mine) > 1:
